@@ -272,3 +272,53 @@
 
 ;; default string-to-key parameters of an etype as text (what GetDefaultStringToKeyParams returns)
 (declare-fun et_defparams (Int) Str)
+
+;; ---- message encryption (properties C05 / C06) ----
+;; Block-cipher modes as uninterpreted functions of (key, iv, data): AES in CBC-CTS mode (RFC 3962 5, aescts
+;; dependency), three-key triple-DES in CBC mode, and the RC4 key stream. Decrypting an encryption gives the data back.
+(declare-fun aescts_enc (BSeq BSeq BSeq) BSeq)
+(assert (forall ((k BSeq) (iv BSeq) (p BSeq)) (! (=> (bvsge (bseq.len p) #x0000000000000010) (= (bseq.len (aescts_enc k iv p)) (bseq.len p))) :pattern ((aescts_enc k iv p)))))
+
+(declare-fun aescts_dec (BSeq BSeq BSeq) BSeq)
+(assert (forall ((k BSeq) (iv BSeq) (c BSeq)) (! (= (bseq.len (aescts_dec k iv c)) (bseq.len c)) :pattern ((aescts_dec k iv c)))))
+(assert (forall ((k BSeq) (iv BSeq) (p BSeq)) (! (=> (bvsge (bseq.len p) #x0000000000000010) (= (aescts_dec k iv (aescts_enc k iv p)) p)) :pattern ((aescts_enc k iv p)))))
+
+(declare-fun des3cbc_enc (BSeq BSeq BSeq) BSeq)
+(assert (forall ((k BSeq) (iv BSeq) (p BSeq)) (! (= (bseq.len (des3cbc_enc k iv p)) (bseq.len p)) :pattern ((des3cbc_enc k iv p)))))
+
+(declare-fun des3cbc_dec (BSeq BSeq BSeq) BSeq)
+(assert (forall ((k BSeq) (iv BSeq) (c BSeq)) (! (= (bseq.len (des3cbc_dec k iv c)) (bseq.len c)) :pattern ((des3cbc_dec k iv c)))))
+(assert (forall ((k BSeq) (iv BSeq) (p BSeq)) (! (= (des3cbc_dec k iv (des3cbc_enc k iv p)) p) :pattern ((des3cbc_enc k iv p)))))
+
+(declare-fun rc4stream (BSeq BSeq) BSeq)
+(assert (forall ((k BSeq) (d BSeq)) (! (= (bseq.len (rc4stream k d)) (bseq.len d)) :pattern ((rc4stream k d)))))
+(assert (forall ((k BSeq) (d BSeq)) (! (= (rc4stream k (rc4stream k d)) d) :pattern ((rc4stream k (rc4stream k d))))))
+
+;; raw encryption / decryption of an etype with its all-zero initial state (RFC 3961 6.3, RFC 3962 5, RFC 8009 5, RFC 4757 5)
+(define-fun et_E ((t Int) (k BSeq) (d BSeq)) BSeq
+  (ite (= t tid.crypto.Des3CbcSha1Kd) (des3cbc_enc k (seqzeros #x0000000000000008) d)
+  (ite (= t tid.crypto.RC4HMAC) (rc4stream k d) (aescts_enc k (seqzeros #x0000000000000010) d))))
+
+(define-fun et_D ((t Int) (k BSeq) (c BSeq)) BSeq
+  (ite (= t tid.crypto.Des3CbcSha1Kd) (des3cbc_dec k (seqzeros #x0000000000000008) c)
+  (ite (= t tid.crypto.RC4HMAC) (rc4stream k c) (aescts_dec k (seqzeros #x0000000000000010) c))))
+
+;; basic laws of sequences used by the round-trip lemmas (consequences of the pointwise axioms and extensionality)
+;; include-with: et_E
+(assert (forall ((a BSeq) (b BSeq)) (! (= (seqtrunc (seqcat a b) (bseq.len a)) a) :pattern ((seqcat a b)))))
+(assert (forall ((a BSeq) (b BSeq)) (! (= (seqsub (seqcat a b) (bseq.len a) (bvadd (bseq.len a) (bseq.len b))) b) :pattern ((seqcat a b)))))
+
+;; RFC 3961 5.3 simplified profile (des3, AES-SHA1): ciphertext = E(Ke, conf | msg | pad) | HMAC(Ki, conf | msg | pad)
+;; with Ke = DK(key, usage | 0xAA), Ki = DK(key, usage | 0x55); plain is conf | msg | pad
+(define-fun enc_3961 ((t Int) (key BSeq) (u (_ BitVec 32)) (plain BSeq)) BSeq
+  (seqcat (et_E t (et_dk t key (usage_const u #xaa)) plain) (simplified_cksum t key (usage_const u #x55) plain)))
+
+;; RFC 8009 5: ciphertext = C | HMAC(Ki, IV | C) with C = AES-CTS(Ke, conf | msg) and the all-zero IV
+(define-fun enc_8009 ((t Int) (key BSeq) (u (_ BitVec 32)) (plain BSeq)) BSeq
+  (seqcat (et_E t (et_dk t key (usage_const u #xaa)) plain)
+          (simplified_cksum t key (usage_const u #x55) (seqcat (seqzeros #x0000000000000010) (et_E t (et_dk t key (usage_const u #xaa)) plain)))))
+
+;; RFC 4757 5: K2 = HMAC(key, msusage); chk = HMAC(K2, conf | data); K3 = HMAC(K2, chk); ciphertext = chk | RC4(K3, conf | data)
+(define-fun enc_4757 ((key BSeq) (u (_ BitVec 32)) (plain BSeq)) BSeq
+  (seqcat (hmac fid.crypto.md5.New (hmac fid.crypto.md5.New key (seqle32 (ms_usage u))) plain)
+          (rc4stream (hmac fid.crypto.md5.New (hmac fid.crypto.md5.New key (seqle32 (ms_usage u))) (hmac fid.crypto.md5.New (hmac fid.crypto.md5.New key (seqle32 (ms_usage u))) plain)) plain)))
